@@ -16,6 +16,6 @@ func raceEnable()  { runtime.RaceEnable() }
 // RaceErrors is the number of data races the Go race runtime has reported so far.
 func RaceErrors() int { return runtime.RaceErrors() }
 
-func raceAcquire(p unsafe.Pointer) { runtime.RaceAcquire(p) }
-func raceRelease(p unsafe.Pointer) { runtime.RaceRelease(p) }
+func raceAcquire(p unsafe.Pointer)      { runtime.RaceAcquire(p) }
+func raceRelease(p unsafe.Pointer)      { runtime.RaceRelease(p) }
 func raceReleaseMerge(p unsafe.Pointer) { runtime.RaceReleaseMerge(p) }
